@@ -132,4 +132,12 @@ CHECKS = {
     text=("Generated pin counts (1 .. > one bus word of mode bits), bus geometries, input_stages 0-3; conforming CSR transactions on Mode/Input/Output/SetClr with per-pin differing "
           "random data interleaved with arbitrary pin waveforms; every cycle bus.r_data, all pins' o/oe and alt_mode are compared with the model."),
     note="Register addresses are taken from the memory map by name and cross-checked with natural-alignment arithmetic."),
+ "C01": dict(
+    design_ref="DESIGN.md section 4, C01",
+    technique="property-based testing over generated bus hierarchies: exhaustive per-address read/write sweeps of the simulated hierarchy, oracle = the root memory map (decode_address/find_resource), all leaf strobes probed every cycle",
+    text=("Generated hierarchies (Wishbone decoder over SRAMs / Wishbone-CSR bridges / nested decoders, or a CSR decoder root; CSR subtrees of decoders, register bridges with "
+          "Builder scopes, multiplexers over unaligned mock registers, event monitors, GPIO) are simulated; for every root address reads and writes with full and random "
+          "select masks are issued and leaf strobes, lane data, w_data, SRAM contents, acknowledge/no-acknowledge are compared with what the root memory map reports."),
+    note=("Bounded exploration (root address space <= 256 granules quick / 4096 thorough). Non-first-chunk read data and w_data masks use conservative validity tracking. "
+          "Trusts the simulator.")),
 }
